@@ -651,3 +651,44 @@ func deadlineObserved(p *Prog, blk *ssa.BasicBlock) bool {
 	}
 	return false
 }
+
+// onlyMeasured: the call does not write its receiver / arguments (ownership summaries) and its result is
+// used for nothing but len() (possibly after a dereference): a read-only observation of the callee's object.
+func onlyMeasured(p *Prog, c *ssa.Call) bool {
+	o := p.own()
+	for _, callee := range p.CG().Callees(c) {
+		if len(o.mutates[callee]) > 0 {
+			return false
+		}
+		if callee.Blocks == nil || !p.isRepoFunc(callee) {
+			return false
+		}
+	}
+	var okUses func(v ssa.Value, depth int) bool
+	okUses = func(v ssa.Value, depth int) bool {
+		if depth > 3 || v.Referrers() == nil {
+			return false
+		}
+		for _, ref := range *v.Referrers() {
+			switch x := ref.(type) {
+			case *ssa.UnOp:
+				if x.Op != token.MUL || !okUses(x, depth+1) {
+					return false
+				}
+			case *ssa.Call:
+				if bi, isB := x.Call.Value.(*ssa.Builtin); !isB || bi.Name() != "len" {
+					return false
+				}
+			case *ssa.DebugRef:
+			default:
+				return false
+			}
+		}
+		return true
+	}
+	// scalar results (Len() int) are fine whatever they are used for
+	if _, isBasic := c.Type().Underlying().(*types.Basic); isBasic {
+		return true
+	}
+	return okUses(c, 0)
+}
